@@ -165,6 +165,11 @@ pub fn classify_panic(msg: &str) -> String {
         "todo".into()
     } else if m.contains("unreachable") {
         "unreachable".into()
+    } else if let Some(i) = m.find("failed to make unique variant names for [") {
+        // the colliding values are part of the identity of this failure
+        let rest = &msg[i + "failed to make unique variant names for [".len()..];
+        let list = rest.split(']').next().unwrap_or("");
+        format!("variant-names({list})")
     } else if m.contains("unwrap") && m.contains("none") {
         "unwrap-none".into()
     } else {
